@@ -44,6 +44,7 @@ func runC04(c *Ctx) {
 	c13GroupIsolated(c)
 	layoutAgreement(c)
 	genRound2(c)
+	errorsNotDropped(c)
 	errorOnPath(c)
 	c13Accounting(c)
 	c01ListNull(c)
